@@ -316,6 +316,35 @@ Proof.
     eexists. repeat split; try reflexivity. exact Hb.
 Qed.
 
+Lemma step_event (s : state) (name : bytes) (isdir : bool) :
+  fst (step s (OFsEvent _ _ name isdir)) =
+  match notifyNewFiles s [(name, isdir)] with Ok s' => s' | _ => s end.
+Proof. simpl. destruct (notifyNewFiles s [(name, isdir)]); reflexivity. Qed.
+
+Lemma notifyNewFiles_unfold (s : state) files :
+  notifyNewFiles s files =
+  match fold_left notify_one files (Ok (st_map _ s, st_list _ s)) with
+  | Ok (m, l) => Ok {| st_fs := st_fs _ s; st_map := m; st_list := l; st_cache := st_cache _ s |}
+  | Err e => Err e
+  | Panic => Panic
+  end.
+Proof. unfold Model.notifyNewFiles. destruct (fold_left _ files _) as [[m l]| |]; reflexivity. Qed.
+
+(* a listener event for one file does the same for that file *)
+Theorem event_exact (s : state) (name : bytes) (isdir : bool) :
+  regex_law -> constructed -> wl_ok s -> name <> [] ->
+  let s' := fst (step s (OFsEvent _ _ name isdir)) in
+  GetAccounts _ s' = add_all (GetAccounts _ s) (spec_matches rule_of [(name, isdir)]) /\
+  (forall a, assoc_get a (st_map _ s') = backing rule_of [(name, isdir)] a (assoc_get a (st_map _ s))) /\
+  st_fs _ s' = st_fs _ s /\ st_cache _ s' = st_cache _ s.
+Proof.
+  intros Hlaw Hc [Hk Hn] Hne.
+  assert (Hnames : names_ok [(name, isdir)]) by (constructor; [exact Hne|constructor]).
+  destruct (fold_notify_exact [(name, isdir)] _ _ Hlaw Hc Hnames Hk Hn) as (m' & Hf & _ & Hb).
+  cbv zeta. rewrite step_event, notifyNewFiles_unfold, Hf. simpl.
+  repeat split; try reflexivity. exact Hb.
+Qed.
+
 (* first scan of a fresh wallet: the account list is the specification's *)
 Theorem accounts_exact_initial fs files :
   regex_law -> constructed ->
